@@ -340,8 +340,28 @@ func verif_GetWorkConnFromPool(pxy *BaseProxy, src, dst net.Addr) {
 	if verif.CalledInIter("pkg/msg.WriteMsg") {
 		m := verif.NthArg[msg.Message]("pkg/msg.WriteMsg", 0, 1).(*msg.StartWorkConn)
 		verif.Ensures(m.ProxyName == name && m.Error == "", "announcement_names_this_proxy")
-		if verif.RetErr("pkg/msg.WriteMsg", 0) != nil {
-			verif.Ensures(verif.Called("net.Conn).Close") || verif.Called("ContextConn).Close"), "failed_announcement_closes_connection")
+		// the user's address and the address the user connected to travel
+		// independently: each is reported whenever it is known (the http vhost
+		// proxy, for one, knows only the user's)
+		const evStr, evSplit, evPort = "net.Addr).String", "net.SplitHostPort", "strconv.ParseUint"
+		// (the calls are identified counting back from the last one of the
+		// attempt: the destination's, when known, come after the source's)
+		if src != nil && dst != nil {
+			verif.Ensures(verif.IterArg[net.Addr](evStr+"@1", 0) == src && verif.IterArg[string](evSplit+"@1", 0) == verif.IterRet[string](evStr+"@1", 0) &&
+				m.SrcAddr == verif.IterRet[string](evSplit+"@1", 0) && verif.IterArg[string](evPort+"@1", 0) == verif.IterRet[string](evSplit+"@1", 1) &&
+				m.SrcPort == uint16(verif.IterRet[uint64](evPort+"@1", 0)), "users_source_address_reported_whenever_known")
+		} else if src != nil {
+			verif.Ensures(verif.IterArg[net.Addr](evStr, 0) == src && verif.IterArg[string](evSplit, 0) == verif.IterRet[string](evStr, 0) &&
+				m.SrcAddr == verif.IterRet[string](evSplit, 0) && verif.IterArg[string](evPort, 0) == verif.IterRet[string](evSplit, 1) &&
+				m.SrcPort == uint16(verif.IterRet[uint64](evPort, 0)), "users_source_address_reported_without_a_destination")
+		} else {
+			verif.Ensures(m.SrcAddr == "" && m.SrcPort == 0, "no_source_address_invented")
+		}
+		if dst != nil {
+			verif.Ensures(verif.IterArg[net.Addr](evStr, 0) == dst && verif.IterArg[string](evSplit, 0) == verif.IterRet[string](evStr, 0) &&
+				m.DstAddr == verif.IterRet[string](evSplit, 0) && m.DstPort == uint16(verif.IterRet[uint64](evPort, 0)), "destination_address_reported_whenever_known")
+		} else {
+			verif.Ensures(m.DstAddr == "" && m.DstPort == 0, "no_destination_address_invented")
 		}
 	}
 	_ = wc
